@@ -2,6 +2,8 @@ import Qryn.Read.Cursor
 import Qryn.Read.Assembly
 import Qryn.Prom.Select
 import Qryn.Prof.Selector
+import Qryn.Prom.Stepped
+import Qryn.Prom.Downsample
 /-! Line protocol for C17.
     `c17cursor <samples> <ops>` — samples `ts:v,ts:v,…` (`-` = empty slice), ops `n` (Next), `a` (At),
     `s<t>` (Seek t) comma separated; answer: outputs in call order, `T`/`F`/`ts:v`/`!` (fault), comma separated.
@@ -14,7 +16,20 @@ import Qryn.Prof.Selector
     separated; answer: hex of the text of the `fp_sel` sub-query, or `unsupported`.
     `c17scan <fromNs> <toNs>` — hex of the two bounds of the raw-sample scan as rendered.
     `c17profsql <table> <hex fromDate> <hex toDate> <selectors>` — selectors `eq|ne|re|nre:<hex name>:<hex value>`;
-    answer: hex of the text of the Pyroscope selector query, or `unsupported`. -/
+    answer: hex of the text of the Pyroscope selector query, or `unsupported`.
+    `c17step <start> <end> <step> <range> <func|-> <rows>` — rows of the raw scan (`fp:val:ts,…`, ordered by
+    fingerprint and time); answer: what `Select` hands out after `processHints` and the row loop, `fp=ts:v|…;…`.
+    `c17stepsql <start> <end> <step> <range> <func|->` — `<hex outer SELECT of the per-step aggregation or ->
+    <hex range-filter condition or ->`.
+    `c17down <start> <end> <step> <range> <func|-> <rows15>` — rows of `metrics_15s` of the selected series,
+    `fp:b:lastV:lastTs:min:max:sum:count,…`; answer: the series after the row loop and `MapResult`,
+    `fp=ts:num/den|…;…` (`unsupported` for a value column the model does not know).
+    `c17downsql <start> <end> <step> <range> <func|->` — hex of the down-sampled sample query after `WITH fp_sel`.
+    `c17profeval <hex fromDate> <hex toDate> <selectors> <rows> <matches>` — meaning of the Pyroscope selector query
+    (`Prof.PQuery.eval`, 64-bit shift) over `profiles_series_gin` rows `date~key~val~type_id~service~stu~fp`
+    (hex fields, `stu` = `hex+hex;…` or `_`), comma separated (`_` = no rows); `matches` lists the
+    `(pattern, value)` pairs `hexpat~hexval` on which ClickHouse `match` is true (`_` = none) — the regular
+    expression engine stays outside the model; answer: the selected fingerprints ascending, `-` = none. -/
 namespace Driver.C17
 open Qryn.Read.Cursor
 
@@ -122,7 +137,94 @@ def selectOp (rows keys : String) : Option String := do
     let out := Qryn.Read.Assembly.reshuffle (fun fp => (ks.lookup fp).getD 0) ss
     some (if out.isEmpty then "-" else ";".intercalate (out.map showSeries))
 
+def hintsOf (a b c d f : String) : Option Qryn.Prom.Stepped.Hints := do
+  let a ← a.toInt?
+  let b ← b.toInt?
+  let c ← c.toInt?
+  let d ← d.toInt?
+  some ⟨a, b, c, d, if f = "-" then "" else f⟩
+
+def stepOp (a b c d f rows : String) : Option String := do
+  let h ← hintsOf a b c d f
+  let rs ← allSome ((parseList rows).map parseRow)
+  match Qryn.Read.Assembly.assemble (Qryn.Prom.Stepped.run h rs) with
+  | none => some "!"
+  | some ss => some (if ss.isEmpty then "-" else ";".intercalate (ss.map showSeries))
+
+def stepSql (a b c d f : String) : Option String := do
+  let h ← hintsOf a b c d f
+  let sh := Qryn.Prom.Stepped.shape h
+  some ((if sh.1 then Qryn.hexOut (Qryn.Prom.Stepped.renderBucket h.start h.step) else "-") ++ " " ++
+        (if sh.2 then Qryn.hexOut (Qryn.Prom.Stepped.renderFilter h) else "-"))
+
+def parseAgg (s : String) : Option Qryn.Prom.Downsample.Agg :=
+  match (s.splitOn ":").map String.toInt? with
+  | [some fp, some b, some lv, some lt, some mn, some mx, some sm, some ct] => some ⟨fp.toNat, b, lv, lt, mn, mx, sm, ct⟩
+  | _ => none
+
+def showDSeries (rows : List Qryn.Prom.Downsample.DRow) : String :=
+  -- the row loop: a new series on every change of fingerprint (rows arrive ordered by fingerprint)
+  let grp := rows.foldl (fun (acc : List (Nat × List Qryn.Prom.Downsample.DRow)) r =>
+    match acc.getLast? with
+    | some (fp, xs) => if fp = r.fp then acc.dropLast ++ [(fp, xs ++ [r])] else acc ++ [(r.fp, [r])]
+    | none => [(r.fp, [r])]) []
+  ";".intercalate (grp.map (fun g => toString g.1 ++ "=" ++
+    "|".intercalate (g.2.map (fun r => toString r.ts ++ ":" ++ toString r.num ++ "/" ++ toString r.den))))
+
+def downOp (a b c d f rows : String) : Option String := do
+  let h ← hintsOf a b c d f
+  let rs ← allSome ((parseList rows).map parseAgg)
+  match Qryn.Prom.Downsample.down h rs with
+  | none => some "unsupported"
+  | some out =>
+    -- MapResult runs per series after the row loop; it maps row by row, so mapping all rows first is the same
+    let out := Qryn.Prom.Downsample.mapResult h.func out
+    some (if out.isEmpty then "-" else showDSeries out)
+
+def splitList (sep : String) (s : String) : List String := if s = "_" then [] else s.splitOn sep
+
+def parsePRow (s : String) : Option Qryn.Prof.PRow :=
+  match s.splitOn "~" with
+  | [d, k, v, t, sv, stu, fp] => do
+    let d ← Qryn.ofHex d
+    let k ← Qryn.ofHex k
+    let v ← Qryn.ofHex v
+    let t ← Qryn.ofHex t
+    let sv ← Qryn.ofHex sv
+    let stu ← allSome ((splitList ";" stu).map (fun p => match p.splitOn "+" with
+      | [a, b] => do
+        let a ← Qryn.ofHex a
+        let b ← Qryn.ofHex b
+        some (a, b)
+      | _ => none))
+    let fp ← fp.toNat?
+    some ⟨d, k, v, t, sv, stu, fp⟩
+  | _ => none
+
+def profEval (d1 d2 sels rows tbl : String) : Option String := do
+  let d1 ← Qryn.ofHex d1
+  let d2 ← Qryn.ofHex d2
+  let sels ← allSome ((parseList sels).map parseSelector)
+  let rows ← allSome ((splitList "," rows).map parsePRow)
+  let tbl ← allSome ((splitList "," tbl).map (fun p => match p.splitOn "~" with
+    | [a, b] => do
+      let a ← Qryn.ofHex a
+      let b ← Qryn.ofHex b
+      some (a, b)
+    | _ => none))
+  match Qryn.Prof.plan "profiles_series_gin" d1 d2 sels with
+  | none => some "unsupported"
+  | some q =>
+    let fps := (q.eval (fun pat v => tbl.contains (pat, v)) 64 rows).mergeSort (fun a b => decide (a ≤ b))
+    some (if fps.isEmpty then "-" else ",".intercalate (fps.map toString))
+
 def handle : List String → Option String
+  | ["c17profeval", d1, d2, sels, rows, tbl] => profEval d1 d2 sels rows tbl
+  | ["c17down", a, b, c, d, f, rows] => downOp a b c d f rows
+  | ["c17downsql", a, b, c, d, f] => (hintsOf a b c d f).map (fun h =>
+      Qryn.hexOut (Qryn.Prom.Downsample.renderDown "metrics_15s" 2 h))
+  | ["c17step", a, b, c, d, f, rows] => stepOp a b c d f rows
+  | ["c17stepsql", a, b, c, d, f] => stepSql a b c d f
   | ["c17select", rows, keys] => selectOp rows keys
   | ["c17profsql", table, d1, d2, sels] => profsql table d1 d2 sels
   | ["c17fpsql", table, date, tp, ms] => fpsql table date tp ms
